@@ -8,6 +8,9 @@
 (c) Connector.stop / stop_everything: every listener stopListening()ed, every pending connector
     Deferred cancel()led, every pending connection disconnect()ed (ghost sets on self, loop
     invariants); attempts are tracked in _pending_connections (outbound: lemma; inbound: contract).
+    What the Connector creates is tracked where stop() looks: the constructor starts with empty, distinct
+    tracking sets; _schedule_connection records the Deferred it creates in _pending_connectors;
+    _start_listener records the listening port in _listeners (lemma); build_protocol forgets nothing.
 (d) incapable peer: Manager.got_wormhole_versions errors the main channel with
     OldPeerCannotDilateError; the Dilator hands every versions dict to the Manager in both orders
     of dilate() / got_wormhole_versions().
@@ -25,6 +28,7 @@ from pyvc import values, source
 from pyvc.models import uf
 from .common import make_registry, install_trace_funcs, register_classes
 from .c16 import _role
+from . import c20      # hint namedtuples (values.NT_DEFS) and their union types
 
 PROP = "C17"
 MGR = "wormhole/_dilation/manager.py"
@@ -89,11 +93,26 @@ def comprehension_each(it, e, g, coll, fr):
     r = _ranked(it, e, g, coll, fr)
     if r is not None:
         return r
+    r = _hints_for(it, e, g, coll, fr)
+    if r is not None:
+        return r
     if not (isinstance(coll, VSet) and isinstance(e.elt, ast.Call) and isinstance(e.elt.func, ast.Attribute)
             and isinstance(e.elt.func.value, ast.Name) and isinstance(g.target, ast.Name)
             and e.elt.func.value.id == g.target.id and not e.elt.args and not e.elt.keywords and not g.ifs):
         return None
     return _each(it, e, g, coll, fr)
+
+
+def _hints_for(it, e, g, coll, fr):
+    """[DirectTCPV1Hint(...) for addr in addresses]: one hint object per address (what the hints say is C20/C07's business)"""
+    import ast
+    from pyvc.interp import VSeqResult
+    if not (isinstance(coll, VSeq) and isinstance(e.elt, ast.Call) and isinstance(e.elt.func, ast.Name)
+            and e.elt.func.id.endswith("Hint") and not g.ifs):
+        return None
+    r = z3.Const(it.ctx.namer("hints"), z3.SeqSort(sort_of(parse_type("opaque[hint]"))))
+    it.ctx.assume(z3.Length(r) == z3.Length(coll.z))
+    return VSeqResult(r, parse_type("opaque[hint]"))
 
 
 def _ranked(it, e, g, coll, fr):
@@ -125,6 +144,13 @@ def sorted_tuples(it, args, kw, fr):
         L = z3.Length(v.z)
         it.ctx.assume(z3.Length(r) == L)
         it.ctx.assume(z3.ForAll([j], z3.Implies(z3.And(0 <= j, j < L), z3.And(0 <= perm(j), perm(j) < L, r[j] == v.z[perm(j)]))))
+        return VSeq(r, v.elem)
+    if isinstance(v, VSet) and v.z is not None and str(v.elem) == str(parse_type("json")):
+        # sorted(set(direct.keys()), reverse=True): the priorities in some order, each one a key (they are numbers - C20 -
+        # hence mutually comparable)
+        r = z3.Const(it.ctx.namer("priorities"), z3.SeqSort(sort_of(v.elem)))
+        i = z3.Int("i!pr")
+        it.ctx.assume(z3.ForAll([i], z3.Implies(z3.And(0 <= i, i < z3.Length(r)), z3.Select(v.z, r[i]))))
         return VSeq(r, v.elem)
     raise OutOfSubset("sorted() of this value")
 
@@ -221,8 +247,13 @@ MANAGER_STOP_FIELDS = {"__state": "state", "_timer": "opt[obj[DelayedCallB]]", "
 CONNECTOR_FIELDS = {"__state": "state", "_listeners": "set[opaque[port]]", "_pending_connectors": "set[opaque[deferred]]",
                     "_pending_connections": "set[opaque[conn]]", "_winning_connection": "opt[opaque[conn]]",
                     "_g_stopped": "set[opaque[port]]", "_g_cancelled": "set[opaque[deferred]]",
-                    "_g_disconnected": "set[opaque[conn]]"}
+                    "_g_disconnected": "set[opaque[conn]]", "_g_created": "set[opaque[deferred]]"}
 GHOSTS = ["_g_stopped", "_g_cancelled", "_g_disconnected"]
+# ghost class invariant: every Deferred the Connector has created for an outbound attempt (deferLater) is tracked
+CREATED_TRACKED = "self._g_created <= self._pending_connectors"
+CONNECTOR_ATTRS = {"_dilation_key": "bytes", "_transit_relay_location": "opt[str]", "_manager": "obj[ManagerB]",
+                   "_reactor": "obj[ReactorB]", "_eventual_queue": "obj[EventualQueueB]", "_no_listen": "bool",
+                   "_tor": "opt[obj[TorB]]", "_timing": "opt[obj[TimingB]]", "_side": "str", "_role": "opaque[role]"}
 
 
 def regf(exclude=()):
@@ -250,7 +281,7 @@ def regf(exclude=()):
     reg.func_models["wormhole/util.py:dict_to_bytes"] = lambda it, args, kwargs, fr: it.fresh("bytes", "json_bytes")
     reg.func_models[f"{CON}:build_noise"] = lambda it, args, kwargs, fr: VObj("NoiseB")
     reg.func_models[f"{MGR}:make_side"] = lambda it, args, kwargs, fr: it.fresh("str", "side")
-    reg.drop_calls = list(reg.drop_calls) + ["self._maybe_send_status"]
+    reg.drop_calls = list(reg.drop_calls) + ["self._maybe_send_status", "hint_status.append"]
     reg.class_fields["ConnectionB"] = {"disconnect_requested": "bool"}
     reg.class_fields["ObserverB"] = {"will_error": "bool"}
     reg.class_fields["Manager"] = dict(MANAGER_STOP_FIELDS)
@@ -258,7 +289,8 @@ def regf(exclude=()):
     reg.class_fields["Once"] = {"_called": "bool"}
     reg.class_fields["Dilator"] = {"_manager": "opt[obj[Manager]]", "_T": "obj[TerminatorB]"}
     reg.boundary_returns["FactoryB.buildProtocol"] = "obj[AppProtocolB]"
-    reg.class_fields["Connector"] = dict(CONNECTOR_FIELDS, _dilation_key="bytes", _eventual_queue="obj[EventualQueueB]")
+    reg.class_fields["Connector"] = dict(CONNECTOR_FIELDS, _dilation_key="bytes", _eventual_queue="obj[EventualQueueB]",
+                                         _reactor="obj[ReactorB]", _manager="obj[ManagerB]")
     reg.boundary["ConnectionB.disconnect"] = conn_disconnect
     reg.boundary["ObserverB.when_fired"] = observer_when_fired
     reg.boundary["deferred.cancel"] = deferred_cancel
@@ -266,6 +298,46 @@ def regf(exclude=()):
     reg.boundary_returns["EndpointB.connect"] = "obj[DeferredB2]"
     reg.boundary_returns["conn.when_disconnected"] = "obj[DeferredB2]"
     sf = reg.spec_funcs
+
+    def defer_later(it, args, kwargs):
+        """twisted.internet.task.deferLater(reactor, delay, f, *a): a new Deferred (recorded: what the Connector creates)"""
+        d = it.fresh("opaque[deferred]", "delayed_connect")
+        it.ctx.event("bcall", "task", "deferLater", list(args), dict(kwargs))
+        it.ctx.event("created", d)
+        so = it.root_frame.selfobj if it.root_frame is not None else None
+        if so is not None and "_g_created" in so.fields:
+            g = so.fields["_g_created"]
+            g.z = z3.Store(g.z, d.z, True)
+        return d
+
+    em["twisted.internet.task.deferLater"] = defer_later
+
+    def hints_by_priority(it, args, kwargs):
+        """collections.defaultdict(list) in _use_hints: an empty map priority -> list of hints, missing keys read as []"""
+        kt, vt = parse_type("json"), parse_type(f"seq[{c20.HINT}]")
+        m_ = VMap(z3.K(sort_of(kt), z3.BoolVal(False)), z3.K(sort_of(kt), z3.Empty(sort_of(vt))), kt, vt)
+        m_.default_empty = True
+        return m_
+
+    em["collections.defaultdict"] = hints_by_priority
+    em["new:DilationHint"] = new_boundary("DilationHintB", None, "status")
+    em["twisted.internet.endpoints.serverFromString"] = lambda it, args, kwargs: VObj("ServerEndpointB")
+    reg.boundary_returns["ServerEndpointB.listen"] = "obj[DeferredB2]"
+    reg.boundary_returns["port.getHost"] = "obj[HostB]"
+    reg.class_fields["HostB"] = {"port": "int"}
+    reg.func_models["wormhole/_hints.py:endpoint_from_hint_obj"] = lambda it, args, kwargs, fr: VObj("EndpointB")
+    reg.func_models["wormhole/_hints.py:describe_hint_obj"] = lambda it, args, kwargs, fr: it.fresh("str", "description")
+    sf["ncalls"] = lambda it, suffix: VInt(sum(1 for e in it.ctx.trace if e[0] == "call" and e[1][0].endswith(it.concrete(suffix))))
+    sf["news_of"] = lambda it, cls: VInt(sum(1 for e in it.ctx.trace if e[0] == "bcall" and e[1][0] == it.concrete(cls)
+                                             and e[1][1] == "__init__"))
+    sf["n_created"] = lambda it: VInt(sum(1 for e in it.ctx.trace if e[0] == "created"))
+    sf["created"] = lambda it, k: [e[1][0] for e in it.ctx.trace if e[0] == "created"][it.concrete(k)]
+
+    def is_method_of(it, f, obj, name):
+        f = it.force(f)
+        return VBool(isinstance(f, VFunc) and f.bound is it.force(obj) and f.fdef.qualname.split(".")[-1] == it.concrete(name))
+
+    sf["is_method_of"] = is_method_of
 
     def is_failure_of(it, f, clsname):
         f = it.force(f)
@@ -306,6 +378,51 @@ def regf(exclude=()):
     return reg
 
 
+def regf_ctor():
+    """the real Connector constructor body runs (no `new:Connector` boundary): observer.EmptyableSet(...) is an empty set
+    (its when_next_empty()/discard() are the boundary models above), _hints.parse_hint_argv is some hint or None"""
+    reg = regf()
+    reg.ext_models.pop("new:Connector", None)
+    reg.ext_models["new:EmptyableSet"] = lambda it, klass, args, kwargs: VSet(None, None)
+    reg.ext_models["new:DebugTiming"] = new_boundary("TimingB")
+    reg.func_models["wormhole/_hints.py:parse_hint_argv"] = lambda it, args, kwargs, fr: it.fresh(c20.OPTHINT, "relay_hint")
+    reg.class_fields["Connector"] = dict(CONNECTOR_ATTRS)
+    return reg
+
+
+def new_connector_real(it, klass, args, kwargs):
+    """Connector(...): the real attrs constructor and __attrs_post_init__, then the ghost sets (nothing created / stopped /
+    cancelled / disconnected yet)"""
+    h = it.reg.ext_models.pop("new:Connector")
+    try:
+        o = it.instantiate(klass, args, kwargs, None)
+    finally:
+        it.reg.ext_models["new:Connector"] = h
+    it.reg.automat.init_state(it, o, klass.cdef)        # Automat: a new machine is in its initial state
+    for g, ty in CONNECTOR_FIELDS.items():
+        cur = o.fields.get(g)
+        if g.startswith("_g_") or (isinstance(cur, VSet) and cur.z is None):     # ghost / still untyped empty set()
+            t = parse_type(ty)
+            o.fields[g] = VSet(z3.K(sort_of(t.args[0]), z3.BoolVal(False)), t.args[0])
+    it.ctx.event("bcall", "Connector", "__new__", list(args), dict(kwargs))
+    return o
+
+
+def regf_mgr_ctor():
+    reg = regf_ctor()
+    reg.contracts.pop(f"{C}.__attrs_post_init__")        # the constructor body itself runs
+    reg.ext_models["new:Connector"] = new_connector_real
+    reg.class_fields["Manager"] = dict(reg.contracts[f"{M}._start_connecting"].self_fields)
+    reg.class_fields["Connector"] = dict(CONNECTOR_FIELDS, **CONNECTOR_ATTRS)
+    return reg
+
+
+def regf_start():
+    reg = regf()
+    reg.func_models["wormhole/ipaddrs.py:find_addresses"] = lambda it, args, kwargs, fr: it.fresh("seq[str]", "addresses")
+    return reg
+
+
 def regf_inline(*names):
     def f():
         return regf(exclude=names)
@@ -315,7 +432,8 @@ def regf_inline(*names):
 STOP_REQ = ["implies(in_state({m}, 'CONNECTED'), {m}._connection is not None)",
             "implies(in_state({m}, 'ABANDONING'), {m}._connection is not None and {m}._connection.disconnect_requested)"]
 
-ASSUMED = []
+ASSUMED = [Contract("wormhole/_hints.py:encode_hint", params={"h": "opaque[hint]"}, returns="json",
+                    note="assumed: returns some JSON value for a hint object (what it encodes is C20's business)")]
 
 CONTRACTS = [
     # ---------------------------------------------------------------- (a) Manager.stop
@@ -369,6 +487,100 @@ CONTRACTS = [
              ensures=[("stoppedD-when-the-manager-has-stopped", "result == 1")]),
 
     # ---------------------------------------------------------------- (c) Connector
+    Contract(f"{C}.__attrs_post_init__", props=[PROP], params={}, self_fields=dict(CONNECTOR_ATTRS),
+             modifies=["_timing"],
+             ensures=[("class-invariant-established--nothing-tracked-yet",
+                       "not self._listeners and not self._pending_connectors and not self._pending_connections and "
+                       "not self._contenders and self._winning_connection is None"),
+                      ("tracks-in-the-fields-stop-shuts-down",
+                       "isinstance(self._listeners, set) and isinstance(self._pending_connectors, set) and "
+                       "isinstance(self._pending_connections, set)"),
+                      ("relay-list-only-from-the-configured-location",
+                       "(len(self._transit_relays) == 0) == (not self._transit_relay_location)")],
+             note="the constructor body the Manager runs in _start_connecting: every tracking field the stop_* contracts read "
+                  "starts empty, each in its own container (frame.no-aliasing), no winner"),
+    Contract(f"{C}.start", props=[PROP], params={},
+             self_fields=dict(CONNECTOR_FIELDS, _tor="opt[obj[TorB]]", _reactor="obj[ReactorB]", _no_listen="bool",
+                              _manager="obj[ManagerB]", _transit_relays="seq[nt[RelayV1Hint]]"),
+             modifies=["_pending_connectors", "_g_created"], requires=[CREATED_TRACKED, "in_state(self, 'connecting')"],
+             ensures=[("every-deferred-created-so-far-is-tracked", CREATED_TRACKED),
+                      ("nothing-tracked-is-forgotten", "old(self._pending_connectors) <= self._pending_connectors"),
+                      ("still-connecting", "in_state(self, 'connecting')")],
+             internal_ensures=[("listens-unless-told-not-to", "bcalls('listen') == ite(not self._no_listen and not self._tor, 1, 0)")],
+             note="_use_hints and _schedule_connection by contract; _start_listener / _publish_hints / _get_listener_addresses "
+                  "inlined (the listen Deferred is still pending here: lemma listening_port_tracked is about its callback)"),
+    Contract(f"{M}._start_connecting", props=[PROP], params={},
+             self_fields={"_my_role": "opt[opaque[role]]", "_dilation_key": "opt[bytes]", "_transit_relay_location": "opt[str]",
+                          "_reactor": "obj[ReactorB]", "_eventual_queue": "obj[EventualQueueB]", "_no_listen": "bool",
+                          "_tor": "opt[obj[TorB]]", "_timing": "opt[obj[TimingB]]", "_my_side": "str",
+                          "_debug_stall_connector": "bool", "_connector": "opt[obj[Connector]]"},
+             modifies=["_connector"],
+             raises_exactly={"AssertionError": "self._my_role is None or self._dilation_key is None"},
+             ensures=[("a-new-connector-with-nothing-tracked-but-what-it-created",
+                       "self._connector is not None and self._connector is not old(self._connector) and "
+                       "self._connector._g_created <= self._connector._pending_connectors and "
+                       "not self._connector._pending_connections and self._connector._winning_connection is None"),
+                      ("it-reports-to-this-manager-and-can-be-stopped",
+                       "self._connector._manager is self and in_state(self._connector, 'connecting')"),
+                      ("started-unless-the-test-hook-stalls-it",
+                       "ncalls('Connector.start') == ite(self._debug_stall_connector, 0, 1)")],
+             note="the real Connector(...) constructor body runs here (attrs fields from the call, then __attrs_post_init__); "
+                  "Connector.start by contract; the new Connector's ghost sets start empty"),
+    Contract(f"{C}._use_hints", props=[PROP], params={"hints": f"seq[{c20.SOMEHINT}]"},
+             self_fields=dict(CONNECTOR_FIELDS, _tor="opt[obj[TorB]]", _reactor="obj[ReactorB]", _no_listen="bool",
+                              _manager="obj[ManagerB]"),
+             modifies=["_pending_connectors", "_g_created"], requires=[CREATED_TRACKED],
+             ensures=[("every-deferred-created-so-far-is-tracked", CREATED_TRACKED),
+                      ("nothing-tracked-is-forgotten", "old(self._pending_connectors) <= self._pending_connectors")],
+             loops={k: {"header": h_, "modifies": [("self", "_pending_connectors"), ("self", "_g_created")],
+                        "retype": {"relays": "seq[nt[RelayV1Hint]]", "hint_status": "seq[opaque[status]]"},
+                        "invariant": [CREATED_TRACKED, "at_entry(self._pending_connectors) <= self._pending_connectors"]}
+                    for k, h_ in enumerate(["for h in hints", "for p in priorities", "for h in direct[p]", "for r in relays",
+                                            "for h in r.hints"])},
+             note="outbound attempts are only ever created through _schedule_connection (by contract): whatever the hints, "
+                  "every Deferred created is tracked and nothing tracked before is dropped"),
+    Contract(f"{C}._schedule_connection", props=[PROP], params={"delay": "real", "h": c20.HINT, "is_relay": "bool"},
+             self_fields=dict(CONNECTOR_FIELDS, _tor="opt[obj[TorB]]", _reactor="obj[ReactorB]"),
+             modifies=["_pending_connectors", "_g_created"], requires=[CREATED_TRACKED],
+             ensures=[("every-deferred-created-so-far-is-tracked", CREATED_TRACKED),
+                      ("nothing-tracked-is-forgotten", "old(self._pending_connectors) <= self._pending_connectors")],
+             internal_ensures=[
+                      ("the-one-deferred-it-creates-is-tracked-for-cancellation",
+                       "n_created() == 1 and created(0) in self._pending_connectors and created(0) in self._g_created"),
+                      ("the-delayed-call-is-this-connectors-connect",
+                       "bcalls('deferLater') == 1 and is_method_of(bcall_arg('deferLater', 0, 2), self, '_connect') and "
+                       "bcall_arg('deferLater', 0, 1) == delay and bcall_arg('deferLater', 0, 5) == is_relay")],
+             note="ghost: every Deferred the Connector creates for an outbound attempt (event `created`) is in "
+                  "_pending_connectors, which stop_pending_connectors cancels; what runs later is _connect (lemma "
+                  "outbound_attempt_tracked)"),
+    Contract(f"{C}.build_protocol", props=[PROP], params={"addr": "opaque[address]", "description": "str"},
+             self_fields=dict(CONNECTOR_FIELDS, _dilation_key="bytes", _eventual_queue="obj[EventualQueueB]", _role="opaque[role]"),
+             pre_hook=role_hook, modifies=["_pending_connections"], returns="obj[ProtocolB]",
+             ensures=[("nothing-tracked-is-forgotten", "old(self._pending_connections) <= self._pending_connections"),("builds-exactly-one-protocol-that-reports-back-to-this-connector",
+                       "news_of('ProtocolB') == 1 and bcall_arg('__init__', 0, 3) is self and bcall_arg('__init__', 0, 1) is self._role "
+                       "and bcall_arg('__init__', 0, 2) == description"),
+                      ("keyed-with-the-dilation-key", "bcalls('set_psks') == 1 and bcall_arg('set_psks', 0, 0) == self._dilation_key"),
+                      ("one-side-initiates", "bcalls('set_as_initiator') + bcalls('set_as_responder') == 1")],
+             note="frame: build_protocol touches no tracking field except that it may add to _pending_connections (it does not "
+                  "today: tracking is done by _connect - lemma outbound_attempt_tracked - and missing for inbound protocols, the "
+                  "open finding on InboundConnectionFactory.buildProtocol, which is checked with build_protocol inlined)"),
+    Contract("lemma:listening_port_tracked", props=[PROP], source_module=CON,
+             params={"c": "obj[Connector]", "addresses": "seq[str]", "lp": "opaque[port]"},
+             source_text="""
+             def listening_port_tracked(c, addresses, lp):
+                 c._start_listener(addresses)
+                 listening = bcall_arg("addCallback", 0, 0)   # what _start_listener attached to ep.listen(factory)
+                 listening(lp)                                 # the port is open
+                 return lp in c._listeners
+             """,
+             requires=["in_state(c, 'connecting')"],
+             ensures=[("tracked-once-listening", "result"),
+                      ("one-listen-with-an-inbound-factory-of-this-connector",
+                       "bcalls('listen') == 1 and bcall_arg('listen', 0, 0)._connector is c"),
+                      ("still-connecting", "in_state(c, 'connecting')")],
+             note="the IListeningPort the Connector opens is recorded in _listeners (which stop_listeners stops) before anything "
+                  "else is done with it.  requires: _listening runs while the Connector is connecting - twisted's "
+                  "TCP4ServerEndpoint.listen() fires synchronously, i.e. inside Connector.start()"),
     Contract(f"{C}.stop_listeners", props=[PROP], params={}, self_fields=dict(CONNECTOR_FIELDS),
              modifies=["_listeners", "_g_stopped"],
              ensures=[("every-listener-stopped", "old(self._listeners) <= self._g_stopped"),
@@ -391,8 +603,9 @@ CONTRACTS = [
              note="the three helpers by contract (modular); _g_* are ghost sets of receivers of stopListening/cancel/disconnect"),
     Contract(f"{C}.stop", props=[PROP], params={}, self_fields=dict(CONNECTOR_FIELDS),
              modifies=["__state", "_listeners", "_pending_connectors", "_pending_connections", "_winning_connection"] + GHOSTS,
-             requires=["not in_state(self, 'stopped')"],
+             requires=["not in_state(self, 'stopped')", CREATED_TRACKED],
              ensures=[("stopped", "in_state(self, 'stopped')"),
+                      ("every-deferred-the-connector-created-is-cancelled", "old(self._g_created) <= self._g_cancelled"),
                       ("every-listener-stopped", "old(self._listeners) <= self._g_stopped"),
                       ("every-pending-connector-cancelled", "old(self._pending_connectors) <= self._g_cancelled"),
                       ("every-pending-connection-disconnected", "old(self._pending_connections) <= self._g_disconnected")],
@@ -521,16 +734,21 @@ def table_task(tier, seed):
 
 
 INLINE_FOR = {
+    f"{CON}:InboundConnectionFactory.buildProtocol": (f"{C}.build_protocol",),
     f"{C}.stop": (),
     "lemma:dilator_stop_callback": (f"{D}.stop", f"{M}.stop"),
     f"{D}.stop": (f"{M}.stop",),
 }
 
 
+REGF_FOR = {f"{C}.__attrs_post_init__": regf_ctor, f"{M}._start_connecting": regf_mgr_ctor, f"{C}.start": regf_start}
+
+
 def tasks():
     out = []
     for c in CONTRACTS:
-        out.append(ContractTask(c, regf_inline(*INLINE_FOR[c.target]) if c.target in INLINE_FOR else regf))
+        out.append(ContractTask(c, REGF_FOR[c.target] if c.target in REGF_FOR else
+                                regf_inline(*INLINE_FOR[c.target]) if c.target in INLINE_FOR else regf))
     out.append(FuncTask("manager-stop-table", table_task, True, "data"))
     # close() completing also depends on the Manager's timer discipline: abandon_connection / stop cancel
     # `_timer`, which raises (and aborts the shutdown) unless the timer is still pending.  That `_timer` is
@@ -554,5 +772,22 @@ ASSUMPTIONS = ["stop() reaches the Manager once (Terminator S_stoppingD is enter
                "loseConnection() is followed by connectionLost (so STOPPING is left); the eventual queue runs its callbacks",
                "in _find_shared_versions, my_versions.index(v) for v in the intersection never raises (v is a member); "
                "[(rank, v) for v in set] and sorted() of (int, str) pairs are modelled as 'one pair per member' / 'a permutation'",
-               "status reporting (_maybe_send_status) is dropped syntax",
-               "Manager(...), Connector(...), DilatedConnectionProtocol(...), SubChannel(...) constructions are boundary events here"]
+               "status reporting (_maybe_send_status; the DilationHint entries _use_hints collects for Manager._hint_status) "
+               "is dropped syntax",
+               "Manager(...), DilatedConnectionProtocol(...), SubChannel(...) constructions are boundary events here.  The real "
+               "Connector(...) constructor (attrs fields + __attrs_post_init__) runs inside Manager._start_connecting and is also "
+               "verified on its own: observer.EmptyableSet(...) is an empty set, _hints.parse_hint_argv returns some hint or None, "
+               "DebugTiming() is a boundary object; a new Connector is in its initial Automat state, its ghost sets are empty and "
+               "its still-untyped empty set() fields get the element types of CONNECTOR_FIELDS.  Manager.__attrs_post_init__ is "
+               "not under contract (Inbound/Outbound/DilatedWormhole/OneShotObserver collaborators: C10/C13/C15/C18)",
+               "not under contract: Connector._get_listener_addresses / _publish_hints / _start_listener on their own (they are "
+               "inlined into Connector.start and the lemma), select_and_stop_remaining / consider (C11); in _use_hints "
+               "collections.defaultdict(list) is an empty map whose missing keys read as [], sorted(set(direct.keys()), "
+               "reverse=True) is some list of keys (priorities are numbers, C20, hence comparable); ipaddrs.find_addresses() "
+               "returns some list of str",
+               "lemma listening_port_tracked requires the Connector to be 'connecting' when ep.listen()'s Deferred fires: "
+               "twisted's TCP4ServerEndpoint.listen() fires synchronously, inside Connector.start().  An endpoint that fired "
+               "after stop() would have its port added to _listeners after stop_listeners ran (never stopped), and "
+               "listener_ready has no row in 'stopped'; not reachable with the TCP endpoint the code uses",
+               "deferLater(reactor, delay, f, ...) returns a new Deferred; endpoint_from_hint_obj / describe_hint_obj / encode_hint "
+               "return some endpoint / str / JSON value (assumed, C20's business); [XHint(...) for a in addresses] is one hint per address"]
